@@ -391,7 +391,8 @@ T_RULE = ("cases are histories on one knowledge base (programs of the engine gen
 
 PROPS['C22'] = {
     'module': 'SuironVerif.Props.C22',
-    'theorems': ['Suiron.C22.build_forgets_history', 'Suiron.C22.request_ignores_history', 'Suiron.C22.base_node_ignores_history', 'Suiron.C22.first_request_independent'],
+    'theorems': ['Suiron.C22.build_forgets_history', 'Suiron.C22.request_ignores_history', 'Suiron.C22.base_node_ignores_history', 'Suiron.C22.first_request_independent',
+                 'Suiron.C22.out_grows', 'Suiron.C22.run_ignores_history', 'Suiron.C22.C22'],
     'oracles': ['C22'],
     'suites': {
         'quick': [{'suite': 'timer', 'args': ['--props', 'C22', '--n', '400']}, {'suite': 'timer', 'args': ['--props', 'C22', '--n', '300', '--interleave']},
@@ -400,8 +401,9 @@ PROPS['C22'] = {
                     + [{'suite': 'timer', 'args': ['--props', 'C22', '--real', '--n', '6', '--case-timeout-ms', '200000'], 'timeout': 400}],
     },
     'rule': T_RULE, 'design_ref': '5.22',
-    'assumptions': ["the theorems cover one request after the query has been built (same answer, successor node, counter and flag whatever the history); the lift to whole runs "
-                    "is by repeating the argument request by request and is decided on every run by the oracle",
+    'assumptions': ["theorem C22: the same query built (make_query + make_base_node) in two arbitrary histories gives, for any number of next_solution requests incl. re-asks "
+                    "after exhaustion, the same answers and writes the same text per request; runs through solve / solve_all (which add the timer) are covered by the "
+                    "C23 theorems for one call and otherwise decided by the oracle",
                     "oracle on the implementation: every whole-run operation of a history returns exactly what the same operation returns in a fresh process state; the "
                     "requests on each kept handle return what the handle's query returns when run alone (ids canonicalised); a stress of 3000 start/cancel cycles of the "
                     "query timer must leave the stop flag clear 1.3 s later",
@@ -550,8 +552,9 @@ LEVEL_TEXT = {
            'is the stripped non-empty lines with one blank after every unfinished line; blank and comment-only lines contribute nothing; a line ending in the middle of a word '
            'rejects the file. Comment stripping itself is tied to the code by the reader stream only.',
     'C22': 'Proved in Lean (frame lemma over the whole engine, by induction on fuel): text written by earlier queries is never read, and once a query has been built the '
-           'globals the engine reads (variable counter, stop flag) depend on the query alone; hence the first request returns the same answer, successor node, counter and '
-           'flag in any two histories. Whole runs and histories with hook-forced and real timeouts are decided by the timer suite. One open known finding (F1).',
+           'globals the engine reads (variable counter, stop flag) depend on the query alone; hence a query built in any two histories gives, request after request and for '
+           'any number of requests, the same answers and the same output (theorem C22). Histories through solve / solve_all with hook-forced and real timeouts, leftover '
+           'timers and prepared queries are decided by the timer suite. One open known finding (F1: constructing a query while another is still being asked).',
     'C23': 'Proved in Lean for every tick at which the timer write may land: the stop flag is only ever set; without a pending write no request sets it, so solve / solve_all '
            'never report a timeout then; solve returns the timeout message iff the flag is set on return, else `No more.` or the formatted answer; solve_all returns the '
            'collected answers followed by the message iff the flag is set. Real time (>= 1 s, cancellation) is exercised by real-timer runs and a cancel stress, not proved.',
